@@ -112,19 +112,23 @@ class Ctx(object):
 
 
 class World(object):
+    """T = configured timeout in ticks, or None (= let the front end use its class default).  The Valet /
+    Porter is constructed WITHOUT a servant, so that it builds its own Server (scheme http) or
+    ServerTls (scheme https) and the configured timeout has to travel Valet/Porter -> Server(Tls) ->
+    Incomer(Tls); only the listening socket is replaced by a double afterwards."""
     def __init__(self, tls, valet, T, t0, app=None):
         from ioflo.base import storing
-        from ioflo.aio.tcp import serving as tcps
         from ioflo.aio.http import serving as https
         self.tick = t0
         self.store = storing.Store(stamp=t0 / TICK)
-        kw = dict(store=self.store, ha=HA, timeout=T / TICK)
-        self.servant = tcps.ServerTls(context=Ctx(), **kw) if tls else tcps.Server(**kw)
+        kw = dict(store=self.store, ha=HA, scheme=u'https' if tls else u'http',
+                  timeout=None if T is None else T / TICK)
+        if tls:
+            kw["context"] = Ctx()     # forwarded through **kwa to ServerTls: no certificate files
+        self.v = https.Valet(app=app, **kw) if valet else https.Porter(**kw)
+        self.servant = self.v.servant
+        self.configured = to_ticks(self.v.timeout)
         self.servant.ss = Listen()
-        if valet:
-            self.v = https.Valet(store=self.store, app=app, servant=self.servant, timeout=T / TICK)
-        else:
-            self.v = https.Porter(store=self.store, servant=self.servant, timeout=T / TICK)
         self.valet = valet
         self.sock = Sock(self, tls)
         self.servant.ss.pending = [self.sock]
@@ -151,10 +155,13 @@ def to_ticks(x):
     return int(v)
 
 
-def observe(w, closed_idle, closed_other, persisted=False):
+def observe(w, closed_idle, closed_other, persisted=False, timer_at_close=None):
     ix = w.ix
-    return {"persisted_when_idle_closed": bool(persisted and closed_idle), "opened": w.opened(), "cutoff": bool(ix.cutoff), "timeout": to_ticks(ix.timeout),
-            "tstart": to_ticks(ix.timer.start), "tstop": to_ticks(ix.timer.stop),
+    # on an idle close the Valet flushes the responder's terminating bytes while closing (which restarts the
+    # timer of the connection being closed); what counts is the timer as the idle check saw it
+    tstart, tstop = timer_at_close if (closed_idle and timer_at_close) else (ix.timer.start, ix.timer.stop)
+    return {"configured": w.configured, "persisted_when_idle_closed": bool(persisted and closed_idle), "opened": w.opened(), "cutoff": bool(ix.cutoff), "timeout": to_ticks(ix.timeout),
+            "tstart": to_ticks(tstart), "tstop": to_ticks(tstop),
             # on an idle close the Valet flushes the responder's terminating bytes while closing; the
             # activity stamp that counts is the one before the check
             "last_act": closed_idle[1] if closed_idle else w.sock.last_io,
@@ -165,7 +172,7 @@ def observe(w, closed_idle, closed_other, persisted=False):
 def run_events(tls, valet, T, t0, evs):
     w = World(tls, valet, T, t0)
     closed_idle, closed_other = w.init_closed, False
-    persisted = False
+    persisted, timer_at_close = False, None
     for e in evs:
         k = e[0]
         if k == "tick":
@@ -198,13 +205,14 @@ def run_events(tls, valet, T, t0, evs):
             closed_other = True
         elif k == "check":
             was_cut, la = bool(w.ix.cutoff), w.sock.last_io
+            snap = (w.ix.timer.start, w.ix.timer.stop)
             w.v.serviceConnects()
             if not w.opened():
                 if was_cut and valet:
                     closed_other = True
                 else:
-                    closed_idle = (w.tick, la)
-    return observe(w, closed_idle, closed_other, persisted)
+                    closed_idle, timer_at_close = (w.tick, la), snap
+    return observe(w, closed_idle, closed_other, persisted, timer_at_close)
 
 
 def c_evs(evs):
@@ -239,7 +247,9 @@ def c_obs(r):
 
 
 def prop_holds(T, r):
-    """the property's statement on the implementation's observable result (times in ticks)"""
+    """the property's statement on the implementation's observable result (times in ticks);
+    T = the timeout configured on the Valet / Porter"""
+    T = r["configured"]
     ci = r["closed_idle"]
     if ci is None:
         return None
@@ -294,7 +304,7 @@ def run_http(tls, T, scenario):
     w = World(tls, True, T, 0, app=app)
     v, sv, sock = w.v, w.servant, w.sock
     evs, closed_idle, closed_other = [], w.init_closed, False
-    persisted = False
+    persisted, timer_at_close = False, None
     for cyc in range(cycles):
         if cyc:
             w.advance(1)
@@ -302,13 +312,14 @@ def run_http(tls, T, scenario):
         if not w.opened():
             continue
         was_cut, la = bool(w.ix.cutoff), sock.last_io
+        snap = (w.ix.timer.start, w.ix.timer.stop)
         v.serviceConnects()                      # --- the five calls of Valet.serviceAll, in its order
         evs.append(("check",))
         if not w.opened():
             if was_cut:
                 closed_other = True
             else:
-                closed_idle = (w.tick, la)
+                closed_idle, timer_at_close = (w.tick, la), snap
             continue
         sock.rres = [inbox[cyc]] if inbox.get(cyc) else []
         r0 = sock.rcvd
@@ -332,7 +343,7 @@ def run_http(tls, T, scenario):
         s0 = sock.sent
         sv.serviceTxesAllIx()
         evs.append(("tx", sock.sent - s0))
-    return evs, observe(w, closed_idle, closed_other, persisted)
+    return evs, observe(w, closed_idle, closed_other, persisted, timer_at_close)
 
 
 def scenarios(T):
@@ -360,7 +371,9 @@ def scenarios(T):
 def run(ctx):
     from ioflo.aid.consoling import getConsole
     getConsole().reinit(verbosity=0)   # keep ioflo's console output out of the check's stdout
-    ctx.rule = ("(a) schedules of tick / rx n / tx n / eof / persist / done / check events, run on the real "
+    ctx.rule = ("front ends are the real Valet / Porter constructed WITHOUT a servant (scheme http -> Server, https -> "
+                "ServerTls) with timeouts of 0, 3, 4, 8, 16, 20, 32, 40, 56 ticks of 1/8 s and None (class default), so the "
+                "configured value has to travel front end -> server -> connection; (a) schedules of tick / rx n / tx n / eof / persist / done / check events, run on the real "
                 "Valet|Porter + Server|ServerTls + Incomer|IncomerTls + StoreTimer (socket doubles, Store clock in "
                 "1/8 s ticks) and on the Coq model: directed busy schedules (activity every gap < T) for every class "
                 "+ seeded random schedules; (b) HTTP scenarios through the real parser and WSGI responder (streamed "
@@ -391,24 +404,25 @@ def run(ctx):
         busy = any(e[0] in ("rx", "tx") and e[1] > 0 for e in evs)
         ctx.case({"tls": tls, "valet": valet, "T": T, "t0": t0, "evs": evs}, nontrivial=busy,
                  kind="%s/%s/%s" % ("tls" if tls else "plain", "valet" if valet else "porter", label))
-        cases.append(("obs (run (conn_cfg %s %s %s) %s %s)" % (cbool(tls), cbool(valet), cz(T), cz(t0),
+        cfgd = "None" if T is None else "(Some %s)" % cz(T)
+        cases.append(("obs (run (served_cfg %s %s %s) %s %s)" % (cbool(tls), cbool(valet), cfgd, cz(t0),
                                                                 c_evs([("check",)] + list(evs))),
                       c_obs(r)))
         metas.append((tls, valet, T, t0, evs, r, label))
 
     for tls in (False, True):
         for valet in (True, False):
-            for T in (4, 8, 40):
+            for T in (4, 8, 32, 40):
                 for gap in sorted(set([1, T // 2, T - 1])):
                     for kind in ("rx", "tx"):
                         evs = busy_schedule(T, gap, (2 * T) // gap + 2, kind)
                         add(tls, valet, T, 0, evs, run_events(tls, valet, T, 0, evs), "busy")
             for _ in range(ctx.n(600, 4000)):
-                T = ctx.rng.choice([0, 3, 4, 8, 16])
+                T = ctx.rng.choice([0, 3, 4, 8, 16, 20, 32, 40, 56, None])   # None = class default (5.0 s)
                 t0 = ctx.rng.choice([0, 0, 5, 64])
-                evs = random_events(ctx.rng, max(T, 2))
+                evs = random_events(ctx.rng, max(T if T is not None else 40, 2))
                 add(tls, valet, T, t0, evs, run_events(tls, valet, T, t0, evs), "random")
-        for T in (4, 8):
+        for T in (4, 8, 20):
             for sc in scenarios(T):
                 evs, r = run_http(tls, T, sc)
                 add(tls, True, T, 0, evs, r, "http:" + sc[0])
@@ -423,19 +437,20 @@ def run(ctx):
             tls, valet, T, t0, evs, r, label = metas[i]
             ctx.tie_broken("correspondence", "C28 model vs %s/%s" % ("IncomerTls" if tls else "Incomer",
                                                                       "Valet" if valet else "Porter"),
-                           "%s T=%d t0=%d evs=%r impl=%r" % (label, T, t0, evs, r))
+                           "%s T=%r t0=%d evs=%r impl=%r" % (label, T, t0, evs, r))
         ctx.extra["mismatches"] = len(bad)
     ctx.exhaustive = False
 
     def search():
         best = None
         for tls, valet, T, t0, evs, r, label in metas:
-            if T <= 0:
+            if r["configured"] <= 0:
                 continue
             why = prop_holds(T, r)
             if why and (best is None or len(evs) < len(best["events"])):
                 best = {"connection_class": "IncomerTls" if tls else "Incomer",
-                        "server": "Valet" if valet else "Porter", "timeout_ticks": T, "accept_tick": t0,
+                        "server": "Valet" if valet else "Porter", "scheme": "https" if tls else "http",
+                        "configured_timeout_ticks": r["configured"], "accept_tick": t0,
                         "tick_seconds": 1 / TICK, "schedule": label, "events": evs, "observed": r, "why": why,
                         "expected": "closed for idleness only if now - last rx/tx >= timeout; never once persisted",
                         "contradicts": "C28.Props.closed_for_idle_only_if_idle / refresh_called_everywhere",
